@@ -133,6 +133,184 @@ theorem spec2_predBuiltin (cfg : CheckCfg) (c : SCfg) (cs : List OTy) (m mc : Me
       · simp only [hbool] at hrule
         simp at hrule
 
+/-! ### `filter` and `map` under the documented rule (`[]interface{}`) -/
+
+theorem rok_fetch (hi : E .index) {a b : Val} {k : RKind} {ki : Kind} (ha : ArrOf a k) (hb : NumOf b ki) :
+    ROK E (fun _ : Val => True) (fetchV a b false) := by
+  have h0 := fetchV_arr (E := E) hi ha hb
+  revert h0
+  generalize fetchV a b false = r
+  intro h0
+  cases r with
+  | ok v => trivial
+  | error e => exact h0
+
+/-- a loop step: continue with any accumulator, never decide -/
+def StepAny {α : Type} (r : α ⊕ Val) : Prop :=
+  match r with
+  | .inl _ => True
+  | .inr _ => False
+
+theorem smok_loopIdx {α : Type} (body : Nat → α → SM (α ⊕ Val))
+    (hbody : ∀ i acc, SMOK E StepAny (body i acc)) :
+    ∀ fuel i acc, SMOK E StepAny (loopIdx body fuel i acc)
+  | 0, _, _ => smok_pure (Q := StepAny) trivial
+  | fuel + 1, i, acc => by
+    simp only [loopIdx]
+    refine smok_bind (hbody i acc) ?_
+    intro r hr
+    cases r with
+    | inl acc' => exact smok_loopIdx body hbody fuel (i + 1) acc'
+    | inr v => exact absurd hr id
+
+/-- `filter(xs, {p})` and `map(xs, {e})` when the checker reports `[]interface{}` for them (the documented
+rule, `staticSliceOf = false`): the value is a `[]interface{}`.  With the rule of the code as it is
+(`[]T`, known finding) the static type claims an element tag the value does not have. -/
+theorem spec2_filterMap (hi : E .index) (hbud : E .budget) (cfg : CheckCfg) (c : SCfg) (cs : List OTy) (m mc : Meta)
+    (name : String) (a b : Node) (hname : name = "filter" ∨ name = "map")
+    (hdt : cfg.dt.staticSliceOf = false)
+    (iha : Spec2 E cfg c cs a)
+    (ihb : ∀ coll, synth cfg cs a = some coll → Spec2 E cfg c (coll :: cs) b)
+    (ha : ∀ t, synth cfg cs a = some t → ∃ k, sliceElemKind t = some k)
+    (hb : ∀ coll bt, synth cfg cs a = some coll → synth cfg (coll :: cs) b = some bt →
+      (∃ Vb, vtyOf bt = some Vb) ∧ (name = "filter" → ScalarT bt)) :
+    Spec2 E cfg c cs (.builtin m name [a, .closure mc b]) := by
+  intro τ V hs hV st hst
+  have hcb : isCollBuiltin name = true := by
+    rcases hname with rfl | rfl <;> decide
+  simp only [synth, hcb, if_true] at hs
+  cases hsa : synth cfg cs a with
+  | none => rw [hsa] at hs; cases hs
+  | some coll =>
+    rw [hsa] at hs
+    simp only [] at hs
+    obtain ⟨k, hk⟩ := ha coll hsa
+    obtain ⟨harr, _⟩ := slice_type_facts hk
+    simp only [harr, Bool.not_true, Bool.false_eq_true, if_false] at hs
+    cases hsb : synth cfg (coll :: cs) b with
+    | none => rw [hsb] at hs; cases hs
+    | some bto =>
+      obtain ⟨⟨Vb, hVb⟩, hfs⟩ := hb coll bto hsa hsb
+      have hbsome : ∃ bt, bto = some bt := by
+        cases bto with
+        | none => simp [vtyOf, OTy.kind, RKind.isScalar, sliceElemKind, isAnySlice] at hVb
+        | some bt => exact ⟨bt, rfl⟩
+      obtain ⟨bt, rfl⟩ := hbsome
+      rw [hsb] at hs
+      simp only [] at hs
+      have hrule := toOption'_some hs
+      -- the result type is `[]interface{}`; for `filter` the closure's result is boolean
+      have hshape : collBuiltinRule cfg.dt name coll (closureType bt) =
+          (if name == "map" then Except.ok arrayTy
+           else if !isBoolT (some bt) then Except.error CheckErrClass.closureNotBool else Except.ok arrayTy) := by
+        rcases hname with rfl | rfl <;>
+          simp (config := {decide := true}) [collBuiltinRule, closureType, interfaceType, Ty.kind, Ty.core, hdt]
+      have hτ : τ = arrayTy ∧ (name = "filter" → OTy.kind (some bt) = .bool) := by
+        rw [hshape] at hrule
+        rcases hname with rfl | rfl
+        · simp (config := {decide := true}) only [if_false] at hrule
+          by_cases hbool : isBoolT (some bt) = true
+          · simp only [hbool, Bool.not_true, Bool.false_eq_true, if_false] at hrule
+            cases hrule
+            exact ⟨rfl, fun _ => (isBoolT_scalar (hfs rfl)).1 hbool⟩
+          · simp only [hbool] at hrule
+            simp at hrule
+        · simp (config := {decide := true}) only [if_true] at hrule
+          cases hrule
+          exact ⟨rfl, fun h => absurd h (by decide)⟩
+      obtain ⟨rfl, hfk⟩ := hτ
+      have : V = .anys := by
+        have : vtyOf arrayTy = some .anys := by decide
+        rw [this] at hV; cases hV; rfl
+      subst this
+      -- visit
+      obtain ⟨e1, _, ev1⟩ := iha coll (.sl k) hsa (vtyOf_slice_of hk) st hst
+      have hst1 := visit_colls cfg a st
+      rcases hav : visit cfg a st with ⟨a', coll', st1⟩
+      rw [hav] at e1 ev1 hst1
+      simp only [] at e1 ev1 hst1
+      subst e1
+      have hpush : ({ st1 with colls := coll' :: st1.colls } : CState).colls = coll' :: cs := by
+        simp only [hst1, hst]
+      obtain ⟨e2, _, ev2⟩ := ihb coll' hsa (some bt) Vb hsb hVb { st1 with colls := coll' :: st1.colls } hpush
+      rcases hbv : visit cfg b { st1 with colls := coll' :: st1.colls } with ⟨b', bt', st2⟩
+      rw [hbv] at e2 ev2
+      simp only [] at e2 ev2
+      subst e2
+      simp only [visit, hcb, if_true, hav, harr, Bool.not_true, Bool.false_eq_true, if_false, hbv, hrule, orFail_ok]
+      refine ⟨trivial, setKd_kd _ _, ?_⟩
+      apply smok_evalOKV
+      intro ctx hctx
+      have hX := evalOKV_smok ev1 ctx hctx
+      -- the closure's body at an element of the collection
+      have hbody : ∀ (collv : Val), ArrOf collv k → ∀ i : Nat,
+          SMOK E (fun v => ValOfV v Vb) (eval c ((collv, (i : Int)) :: ctx) (.closure { mc with kd := OTy.kind (closureType bt) } b')) := by
+        intro collv hcv i
+        simp only [eval]
+        exact evalOKV_smok ev2 ((collv, (i : Int)) :: ctx) ⟨k, hk, hcv⟩
+      rcases hname with rfl | rfl
+      · -- filter
+        have hVbool : Vb = .sc .bool := by
+          have := hfk rfl
+          rw [vtyOf_scalar (hfs rfl), this] at hVb
+          cases hVb; rfl
+        subst hVbool
+        show SMOK E (fun v => ∃ ys, v = .arr .iface ys) (eval c ctx (.builtin _ "filter" [a', .closure _ b']))
+        simp (config := {decide := true}) only [eval, builtinNames, List.contains, List.elem, if_true, if_false]
+        refine smok_bind hX ?_
+        intro collv hcv
+        obtain ⟨et, xs, rfl, htag, hxs⟩ := hcv
+        have hcv : ArrOf (.arr et xs) k := ⟨et, xs, rfl, htag, hxs⟩
+        refine smok_bind (Qa := fun _ => True) (smok_lift trivial) ?_
+        intro n _
+        refine smok_bind (smok_loopIdx _ ?_ _ _ _) ?_
+        · intro i acc
+          have hb' := hbody _ hcv i
+          simp only [eval] at hb'
+          refine smok_bind hb' ?_
+          intro v hv
+          refine smok_bind (smok_asBool hv (fun _ => True) (fun _ => trivial)) ?_
+          intro bv _
+          cases bv
+          · exact smok_pure (Q := StepAny) trivial
+          · simp only [if_true]
+            have hnum : NumOf (Val.int Kind.int (i : Int)) Kind.int := ⟨(i : Int), rfl⟩
+            revert hnum
+            generalize Val.int Kind.int (i : Int) = bidx
+            intro hnum
+            have hfetch := smok_lift (E := E) (rok_fetch (E := E) hi hcv hnum)
+            exact smok_bind hfetch (fun el _ => smok_pure (Q := StepAny) trivial)
+        · intro r hr
+          cases r with
+          | inr v => exact absurd hr id
+          | inl acc =>
+            refine smok_bind (smok_allocAfter hbud _ _ _) ?_
+            intro _ _
+            exact smok_pure ⟨_, rfl⟩
+      · -- map
+        show SMOK E (fun v => ∃ ys, v = .arr .iface ys) (eval c ctx (.builtin _ "map" [a', .closure _ b']))
+        simp (config := {decide := true}) only [eval, builtinNames, List.contains, List.elem, if_true, if_false]
+        refine smok_bind hX ?_
+        intro collv hcv
+        obtain ⟨et, xs, rfl, htag, hxs⟩ := hcv
+        have hcv : ArrOf (.arr et xs) k := ⟨et, xs, rfl, htag, hxs⟩
+        refine smok_bind (Qa := fun _ => True) (smok_lift trivial) ?_
+        intro n _
+        refine smok_bind (smok_loopIdx _ ?_ _ _ _) ?_
+        · intro i acc
+          have hb' := hbody _ hcv i
+          simp only [eval] at hb'
+          refine smok_bind hb' ?_
+          intro v _
+          exact smok_pure (Q := StepAny) trivial
+        · intro r hr
+          cases r with
+          | inr v => exact absurd hr id
+          | inl acc =>
+            refine smok_bind (smok_allocAfter hbud _ _ _) ?_
+            intro _ _
+            exact smok_pure ⟨_, rfl⟩
+
 /-! ### the extended fragment -/
 
 mutual
@@ -151,7 +329,8 @@ def inFrag2 (calls : Bool) : Node → Bool
   | .slice _ x none (some t) => inFrag2 calls x && inFrag2 calls t
   | .slice _ x (some f) (some t) => inFrag2 calls x && inFrag2 calls f && inFrag2 calls t
   | .builtin _ name [a] => name == "len" && inFrag2 calls a
-  | .builtin _ name [a, .closure _ b] => isPredBuiltin name && inFrag2 calls a && inFrag2 calls b
+  | .builtin _ name [a, .closure _ b] =>
+    (isPredBuiltin name || name == "filter" || name == "map") && inFrag2 calls a && inFrag2 calls b
   | .func _ _ args _ => calls && inFrag2L calls args
   | .array _ xs => inFrag2L calls xs
   | _ => false
@@ -217,10 +396,14 @@ def typed2 (cfg : CheckCfg) : List OTy → Node → Bool
     sliceOK (synth cfg cs x) && typed2 cfg cs x && intOK (synth cfg cs f) && typed2 cfg cs f &&
       intOK (synth cfg cs t) && typed2 cfg cs t
   | cs, .builtin _ _ [a] => lenOK (synth cfg cs a) && typed2 cfg cs a
-  | cs, .builtin _ _ [a, .closure _ b] =>
+  | cs, .builtin _ name [a, .closure _ b] =>
     sliceOK (synth cfg cs a) && typed2 cfg cs a &&
+    -- `filter` / `map`: only under the documented rule (result `[]interface{}`); the code's `[]T` is the known finding
+    (isPredBuiltin name || !cfg.dt.staticSliceOf) &&
     (match synth cfg cs a with
-      | some coll => scalarOK (synth cfg (coll :: cs) b) && typed2 cfg (coll :: cs) b
+      | some coll =>
+        (if name == "map" then vtyOK (synth cfg (coll :: cs) b) else scalarOK (synth cfg (coll :: cs) b)) &&
+          typed2 cfg (coll :: cs) b
       | none => false)
   | cs, .func _ name args _ =>
     (match funcTargetC cfg name with
@@ -410,22 +593,40 @@ theorem frag2_sound (hd : E .divzero) (hi : E .index) (hbud : E .budget) (cfg : 
     simp only [inFrag2, Bool.and_eq_true] at hf
     simp only [typed2, Bool.and_eq_true] at ht
     obtain ⟨⟨hname, hfa⟩, hfb⟩ := hf
-    obtain ⟨⟨hsa, hta⟩, hbody⟩ := ht
-    refine spec2_predBuiltin cfg c cs m mc name a b hname (frag2_sound hd hi hbud cfg c henv calls hw a cs hfa hta) ?_ ?_ ?_
-    · intro coll hc
+    obtain ⟨⟨⟨hsa, hta⟩, hdt⟩, hbody⟩ := ht
+    have iha := frag2_sound hd hi hbud cfg c henv calls hw a cs hfa hta
+    have ihb : ∀ coll, synth cfg cs a = some coll → Spec2 E cfg c (coll :: cs) b := by
+      intro coll hc
       rw [hc] at hbody
       simp only [Bool.and_eq_true] at hbody
       exact frag2_sound hd hi hbud cfg c henv calls hw b (coll :: cs) hfb hbody.2
-    · intro t h
-      rw [h] at hsa
-      simp only [sliceOK, Option.isSome_iff_exists] at hsa
-      exact hsa
-    · intro coll bt hc hb'
+    by_cases hp : isPredBuiltin name = true
+    · refine spec2_predBuiltin cfg c cs m mc name a b hp iha ihb (sliceOK_elim hsa) ?_
+      intro coll bt hc hb'
       rw [hc] at hbody
       simp only [Bool.and_eq_true] at hbody
+      have hnm : (name == "map") = false := by
+        rcases isPredBuiltin_cases hp with rfl | rfl | rfl | rfl | rfl <;> decide
       have := hbody.1
-      rw [hb'] at this
+      rw [hnm, hb'] at this
       exact this
+    · have hfm : name = "filter" ∨ name = "map" := by
+        simp only [hp, Bool.false_or, Bool.or_eq_true, beq_iff_eq] at hname
+        exact hname
+      have hdt' : cfg.dt.staticSliceOf = false := by
+        simp only [hp, Bool.false_or] at hdt
+        simpa using hdt
+      refine spec2_filterMap hi hbud cfg c cs m mc name a b hfm hdt' iha ihb (sliceOK_elim hsa) ?_
+      intro coll bt hc hb'
+      rw [hc] at hbody
+      simp only [Bool.and_eq_true] at hbody
+      have h1 := hbody.1
+      rw [hb'] at h1
+      rcases hfm with rfl | rfl
+      · simp (config := {decide := true}) only [if_false] at h1
+        exact ⟨⟨_, vtyOf_scalar h1⟩, fun _ => h1⟩
+      · simp (config := {decide := true}) only [if_true] at h1
+        exact ⟨Option.isSome_iff_exists.1 h1, fun h => absurd h (by decide)⟩
   | .func m name args fast, cs, hf, ht => by
     simp only [inFrag2, Bool.and_eq_true] at hf
     obtain ⟨hcalls, hfa⟩ := hf
